@@ -67,6 +67,10 @@ def numeric_measures():
         scenario("mr_1d_y", [mr("A", 2)], max_resp=2, **y),
         scenario("cat_x_cat_x_cat_y", [cat("T", 3, miss=[2]), cat("A", 2), cat("B", 2)],
                  max_resp=1, sim_max_resp=4, **y),
+        scenario("cat_x_mr_x_cat_y", [cat("T", 2), mr("A", 2), cat("B", 2)], **y),
+        scenario("mr_x_cat_x_cat_y", [mr("T", 2), cat("A", 2), cat("B", 3, miss=[2])], **y),
+        scenario("cat_x_cat_x_mr_y", [cat("T", 3, miss=[1]), cat("A", 2), mr("B", 2)], **y),
+        scenario("nub_y", [], **y),
     ]
     # without valid-count measures (older responses): counts are plain counts
     y2 = dict(yvals=(0, 2), ymeasures=("mean",), valid_counts=False)
@@ -80,6 +84,7 @@ def numeric_arrays():
         scenario("numarr_1d", [numarr("N", 2)], max_resp=2, **y),
         scenario("numarr_x_cat", [numarr("N", 2), cat("B", 3, miss=[2])], max_resp=2, **y),
         scenario("numarr_x_mr", [numarr("N", 2), mr("B", 2)], max_resp=1, sim_max_resp=4, **y),
+        scenario("numarr_x_cat_x_cat", [numarr("N", 2), cat("A", 3, miss=[2]), cat("B", 2)], **y),
     ]
 
 
